@@ -7,6 +7,7 @@ TRANSPARENT = (
     "as std::clone::Clone>::clone", "as std::ops::Deref>::deref", "as std::convert::AsRef<T>>::as_ref",
     "as std::ops::DerefMut>::deref_mut", "as std::borrow::Borrow<T>>::borrow",
     "as std::iter::IntoIterator>::into_iter",
+    "std::convert::Into::into", "std::convert::From::from",
     "Result::<T, E>::map_err", "Option::<T>::ok_or_else", "Option::<T>::ok_or",
     "for std::result::Result<T, E>>::with_context", "for std::result::Result<T, E>>::context",
 )
